@@ -4,6 +4,7 @@ preconditions with their strictness.  Expected forms are written from the
 doxygen comments (vector-like semantics bounded by the buffer), not from the
 code; compared with E2 summaries path by path."""
 from common import *
+import re
 import rint
 from symex import *
 from libsum import *
@@ -120,6 +121,52 @@ def check_array_scans_bounded(chk, lib):
                 else:
                     chk.ok("ARR.bounded", "sized-argument:" + key, {"uses": sorted(ms)})
     chk.ok("ARR.bounded", "scanned", {"unbounded scanner calls in array references": n, "sized arguments reduced to data()": m}, nontrivial=True)
+    return n
+
+
+SHIFTERS = ("copy_backward", "move_backward", "copy", "move", "memmove", "rotate", "fill_n", "fill")
+
+
+def check_value_aliasing(chk, lib):
+    """ARR.alias: `a.insert(pos, a[j])` is valid for a vector.  An operation that shifts or overwrites elements before it
+    stores its `value` argument must own a copy of it: a `const value_type&` parameter that is read after the first
+    shifting call designates a slot whose contents have already been moved."""
+    n = 0
+    seen = set()
+    for f in lib.facts["functions"]:
+        if not f.get("file", "").endswith("sbepp.hpp") or f.get("body") is None:
+            continue
+        owner = f.get("cls_tpl") or f.get("cls") or ""
+        if "dynamic_array_ref" not in owner and "static_array_ref" not in owner:
+            continue
+        for prm in f.get("params") or []:
+            t = (prm.get("t") or "")
+            if not t.rstrip().endswith("&") or "value_type" not in t and not re.search(r"const (char|signed char|unsigned char|std::byte|unsigned short|short|int|long|unsigned int|unsigned long) &", t):
+                continue
+            did, nm = prm.get("did"), prm.get("name")
+            order = [x for x in walk(f["body"])]
+            first_shift = None
+            last_use = None
+            for i, x in enumerate(order):
+                c = x.get("callee") or {}
+                if first_shift is None and c.get("name") in SHIFTERS and (c.get("base") or "").startswith("std::"):
+                    first_shift = i
+                if x.get("k") == "DeclRefExpr" and x.get("dk") == "ParmVar" and x.get("name") == nm:
+                    last_use = i
+            k = (f["name"], f.get("line"), nm)
+            if k in seen:
+                continue
+            seen.add(k)
+            n += 1
+            key = "%s.%s|%s" % (owner.split("::")[-1].split("<")[0], f["name"], nm)
+            if first_shift is not None and last_use is not None and last_use > first_shift:
+                chk.violation("ARR.alias", key, where(f),
+                              "%s takes `%s` by reference (%s) and reads it after it has shifted / overwritten elements: for an "
+                              "argument that refers to an element of the same array (valid for a vector) the wrong value is stored"
+                              % ((f.get("qn") or "")[:120], nm, t))
+            else:
+                chk.ok("ARR.alias", key + "#%s" % f.get("line"), {"param": t})
+    chk.ok("ARR.alias", "scanned", {"reference parameters of element type": n}, nontrivial=True)
     return n
 
 
